@@ -386,3 +386,18 @@ func vfc03SortChunks(cs []vfc03Chunk) {
 		return !cs[i].Aggr && cs[j].Aggr
 	})
 }
+
+const vfc03ReplicaLabel = "k"
+
+func vfc03Lset(a, k, z string) labels.Labels {
+	var kv []string
+	kv = append(kv, "a", a)
+	if k != "" {
+		kv = append(kv, vfc03ReplicaLabel, k)
+	}
+	if z != "" {
+		kv = append(kv, "z", z)
+	}
+	return labels.FromStrings(kv...)
+}
+
